@@ -264,7 +264,13 @@ func (t *ImmutableTree) Iterator(start, end []byte, ascending bool) (corestore.I
 		}
 
 		if isFastCacheEnabled {
-			return NewFastIterator(start, end, ascending, t.ndb), nil
+			fastItr := NewFastIterator(start, end, ascending, t.ndb)
+			// A concurrent commit may have replaced the index between the check above and the
+			// creation of the storage iterator: only use it if this is still the latest version.
+			if stillLatest, err := t.isLatestTreeVersion(); err == nil && stillLatest {
+				return fastItr, nil
+			}
+			fastItr.Close()
 		}
 	}
 	return NewIterator(start, end, ascending, t), nil
